@@ -316,13 +316,18 @@ pub fn judge_keepalive(rt: &tokio::runtime::Runtime, r: &mut Report, case: &KCas
     };
     let doc_text = rest.trim_start_matches([' ', '\t', '\r', '\n']);
     let n_ws = rest.len() - doc_text.len();
-    let doc = match rx::parse(doc_text.as_bytes()) {
+    // the body as a whole is what a client's XML reader gets: declaration, white space, one document
+    let doc = match rx::parse(bytes.as_slice()) {
         Ok(d) => d,
         Err(e) => {
             r.violated("C03/keep-alive/body-not-whitespace-then-document", wit(json!({"reference_error": e.0, "body": text})));
             return;
         }
     };
+    if doc_text.starts_with("<?") {
+        r.violated("C03/keep-alive/second-declaration", wit(json!({"body": text})));
+        return;
+    }
     // frames: whitespace only while the backend is still working
     let done_at = case.delay_ms;
     for f in &resp.frames {
